@@ -122,10 +122,18 @@ class C01(Prop):
     def classes(self):
         return list(CLASSES)
 
+    def shrink_candidates(self, req):
+        """only FIR programs are shrunk (malformed FIR makes the oracle raise = not a failure); token lines and source text are
+        replayed as they are, because every text the frontend rejects would count as 'still failing'"""
+        from ..core import _subterms_replace
+        if str(req[1]) == 'fir':
+            for i, v in enumerate(_subterms_replace(req[3])):
+                yield req[:3] + [v] + req[4:]
+
     # ------------------------------------------------------------------ generation
     def gen(self, rng, tier):
         n_lines = {'quick': 12, 'thorough': 200, 'search': 80}[tier]
-        n_fir = {'quick': 12, 'thorough': 160, 'search': 80}[tier]
+        n_fir = {'quick': 10, 'thorough': 160, 'search': 80}[tier]
         for k in range(n_lines):
             g = ScalarGen(rng, hazards=False)
             src = fir.emit_fortran(g.program(), wrap_program=False)
@@ -138,7 +146,11 @@ class C01(Prop):
             p = fir.gen_program(rng, cfgs[k % len(cfgs)])
             ins = fir.gen_inputs(rng, p, 3) + fir.gen_inputs(rng, p, 1, extreme=True)
             yield Case([A('c01'), A('fir'), A(STYLES[k % 2]), p, ins, A('gf' if tier == 'thorough' else 'interp')], stream='fir')
-        for name, src, drv in OUTSIDE_FIR:
+        outside = list(OUTSIDE_FIR)
+        if tier == 'quick':           # gfortran is slow on a loaded machine: three of them per quick run (the named-cycle witness is
+            rng.shuffle(outside)      # replayed from known_findings.json on every run anyway)
+            outside = outside[:3]
+        for name, src, drv in outside:
             yield Case([A('c01'), A('outside'), src, drv], stream='outside-fir')
 
     # ------------------------------------------------------------------ correspondence
